@@ -50,6 +50,35 @@ def precise_vs_imprecise(rng):
             "total_mode": "explicit", "total": T, "noise_seed": 0}
 
 
+def degenerate(rng):
+    """Public data on which the fit does not depend on the weights at all (every record has the same measured values), or only
+    through the total (sum queries): the gradient is the same for every record."""
+    kind = rng.choice(["identical_records", "total_queries", "single_cell", "single_cell"])
+    if kind == "single_cell":
+        # one-value attributes, total estimated from the answers: at uniform weights the gradient is a rounding residue that is
+        # the same for every record
+        k = rng.randint(2, 7)
+        return {"attrs": ["a", "b"], "sizes": [1, 1], "public": [[0, 0]] * k, "private": [[0, 0]] * 5,
+                "meas": [{"proj": ["a"], "kind": "twice", "noise": 0.5, "y": [float(rng.randint(3, 12))]},
+                         {"proj": ["b"], "kind": "stack", "noise": 1.0, "y": [float(rng.randint(2, 9)), float(rng.randint(2, 9))]}],
+                "total_mode": "estimated", "noise_seed": 0, "degenerate": kind}
+    if kind == "identical_records":
+        rec = [rng.randrange(2), rng.randrange(3)]
+        pub = [list(rec)] * rng.randint(2, 7)
+        meas = [{"proj": ["a"], "kind": "identity", "noise": rng.choice([0.5, 1.0])}, {"proj": ["b", "a"], "kind": "identity", "noise": 2.0}]
+    else:
+        pub = [[rng.randrange(2), rng.randrange(3)] for _ in range(rng.randint(2, 7))]
+        meas = [{"proj": ["a"], "kind": "total", "noise": 1.0}, {"proj": ["b"], "kind": "total", "noise": 0.5}]
+    return {"attrs": ["a", "b"], "sizes": [2, 3], "public": pub, "private": [[rng.randrange(2), rng.randrange(3)] for _ in range(rng.choice([5, 30]))],
+            "meas": meas, "total_mode": rng.choice(["given", "estimated"]), "noise_seed": rng.randrange(10 ** 6), "degenerate": kind}
+
+
+# a fixed instance of finding F19 (2 identical single-cell records, 2*I at noise 0.5 answering 6, a stacked identity answering 5, 5)
+KNOWN_DEGENERATE = {"attrs": ["a", "b"], "sizes": [1, 1], "public": [[0, 0]] * 2, "private": [[0, 0]] * 5,
+                    "meas": [{"proj": ["a"], "kind": "twice", "noise": 0.5, "y": [6.0]}, {"proj": ["b"], "kind": "stack", "noise": 1.0, "y": [5.0, 5.0]}],
+                    "total_mode": "estimated", "noise_seed": 0, "degenerate": "single_cell"}
+
+
 def big_prefix(rng):
     """Prefix-sum queries over a 64-value attribute (ill-conditioned for an iterative solver) next to a very noisy identity:
     the estimated total must be the minimum-variance combination of both."""
@@ -193,7 +222,7 @@ def run(ctx, canary=False):
         ctx.violation("design-level: %s violated in PublicMD.tla" % r.violated, {"tlc": r.trace_text()}, {"kind": "design"})
     traces = []
     stats = {"negative_rhs_steps": 0, "accepted_increase": 0, "runs": 0}
-    scs = [scenario(rng) for _ in range(900 if thorough else 110)] + [precise_vs_imprecise(rng) for _ in range(60 if thorough else 8)] + [big_prefix(rng) for _ in range(20 if thorough else 4)]
+    scs = [scenario(rng) for _ in range(900 if thorough else 110)] + [precise_vs_imprecise(rng) for _ in range(60 if thorough else 8)] + [big_prefix(rng) for _ in range(20 if thorough else 4)] + [degenerate(rng) for _ in range(30 if thorough else 6)] + [KNOWN_DEGENERATE]
     import multiprocessing
     with multiprocessing.get_context("fork").Pool(16) as pool:
         outs = pool.map(one_run, scs, chunksize=2)
@@ -205,7 +234,7 @@ def run(ctx, canary=False):
             continue
         stats["runs"] += 1
         if o["bad"]:
-            ctx.violation("public-data reweighting: " + "; ".join(o["bad"]), info, {"kind": "public"})
+            ctx.violation("public-data reweighting: " + "; ".join(o["bad"]), info, {"kind": "public", "degenerate": bool(sc.get("degenerate"))})
         stats["negative_rhs_steps"] += o["neg"]
         stats["accepted_increase"] += o["inc"]
         if len(traces) < (400 if thorough else 60):
